@@ -126,7 +126,7 @@ def emit(result, tier, seed, t0, level="other", technique=""):
     # a known finding that no longer reproduces is reported (informational only)
     hit_keys = {(o.rule, o.construct) for o, _ in known_hit}
     for key, k in known_open.items():
-        if key not in hit_keys:
+        if key not in hit_keys and not (k.get("tier") == "thorough" and tier == "quick"):
             print("NOTE property=%s known finding no longer reproduces: rule=%s construct=%s" % (prop, key[0], key[1]))
     for i, o in enumerate(new_viol):
         rp = os.path.join(EVIDENCE_DIR, "replay", "%s-%d.json" % (prop, i))
